@@ -91,6 +91,31 @@ Definition is_link (t : tree) (p : bytes) : bool :=
 Definition is_realdir (t : tree) (p : bytes) : bool :=
   match lstat t p with Some NDir => true | _ => false end.
 
+(* "/a/b": rooted, components non-empty and neither "." nor ".." (never the root itself) *)
+Definition abs_cleanb (k : bytes) : bool :=
+  match k with c :: r => Ascii.eqb c c_sl && forallb plainb (psplit r) | [] => false end.
+Fixpoint drop_to_slash (r : bytes) : option bytes :=
+  match r with [] => None | c :: r' => if Ascii.eqb c c_sl then Some r' else drop_to_slash r' end.
+(* d[:strings.LastIndexByte(d, '/')] when that index is >= 1 *)
+Definition chop (d : bytes) : option bytes :=
+  match drop_to_slash (rev d) with
+  | Some (c :: r) => Some (rev (c :: r))
+  | _ => None
+  end.
+(* the proper ancestors of a path except the root: "/a/b/c" |-> ["/a/b"; "/a"] *)
+Fixpoint chop_chain (fuel : nat) (d : bytes) : list bytes :=
+  match fuel with
+  | O => []
+  | S f => d :: match chop d with Some d' => chop_chain f d' | None => [] end
+  end.
+Definition nrparents (p : bytes) : list bytes :=
+  match chop p with Some d => chop_chain (length p) d | None => [] end.
+
+(* lstat fails with ENOTDIR (not ENOENT) when something that is not a directory is in the way *)
+Definition notdir_above (t : tree) (name : bytes) : bool :=
+  existsb (fun d => match assoc d t with Some NDir | Some (NLink _) | None => false | Some _ => true end)
+          (nrparents (clean name)).
+
 (* ---------------------------------------------------------------- the member map *)
 (* what the path property needs of a lineInfo in entryMap: its type and, for regular files,
    the inode group (devino >= 0 exactly for files read from the tree with link count > 1) *)
@@ -113,6 +138,7 @@ Record lineinfo := MkLI {
 Definition add_single (t : tree) (li : lineinfo) (name : bytes) (m : emap) : res emap :=
   match lstat t name with
   | None =>
+    if notdir_above t name then Failed else      (* any error other than ENOENT is returned *)
     if li_skip li then Ok m else
     match li_type li with
     | TTbd => Failed
@@ -471,23 +497,6 @@ Fixpoint add_pkgfiles (t : tree) (ns : list bytes) (m : emap) : res emap :=
 (* UnstagedFileMap / ExcludeFiles *)
 Definition unstaged (all : list bytes) (m : emap) : list bytes := filter (fun n => negb (mem n m)) all.
 Definition exclude (u : list bytes) (m : emap) : emap := fold_left (fun m' n => del n m') u m.
-
-Fixpoint drop_to_slash (r : bytes) : option bytes :=
-  match r with [] => None | c :: r' => if Ascii.eqb c c_sl then Some r' else drop_to_slash r' end.
-(* d[:strings.LastIndexByte(d, '/')] when that index is >= 1 *)
-Definition chop (d : bytes) : option bytes :=
-  match drop_to_slash (rev d) with
-  | Some (c :: r) => Some (rev (c :: r))
-  | _ => None
-  end.
-(* the proper ancestors of a path except the root: "/a/b/c" |-> ["/a/b"; "/a"] *)
-Fixpoint chop_chain (fuel : nat) (d : bytes) : list bytes :=
-  match fuel with
-  | O => []
-  | S f => d :: match chop d with Some d' => chop_chain f d' | None => [] end
-  end.
-Definition nrparents (p : bytes) : list bytes :=
-  match chop p with Some d => chop_chain (length p) d | None => [] end.
 
 (* RecoverMissingLinks *)
 Definition nogo : list bytes := fields D_DoNotTraverse.
